@@ -4,7 +4,7 @@
    The abstract map `abs` (sorted sequence of <<key, value id>>) carries the meaning of the API (C02, C03, C10);
    the node map follows the transliterated algorithms of YkTree (and must equal the dump when "S" \in ON).
    ON selects which families of conjuncts are enforced, so that a rejection is attributable to one property. *)
-EXTENDS YkTree, YkIscan, Json, IOUtils
+EXTENDS YkTree, YkIscanR, Json, IOUtils
 CONSTANTS ON, LENIENT
 Log == ndJsonDeserialize(IOEnv.TRACE)
 VARIABLES node, root, nextId, abs, l, lastRead, lastMem, sizes, vsz
@@ -192,6 +192,27 @@ ApplyWrites(ws, i, st) ==
            ApplyWrites(ws, i + 1, [abs |-> ARem(st.abs, w.k), nd |-> c[1], rt |-> c[2][r[2]], nid |-> c[3],
                                    structural |-> TRUE, hitb |-> st.hitb \cup {GetRec(st.nd, st.rt, w.k).b}])
         ELSE ApplyWrites(ws, i + 1, st)
+\* the paused cursor in the model (YkIscanR): open, the calls of the first part, the writes applied WITHOUT renumbering (the context holds node ids,
+\* dead nodes stay in the map), then next until the end or a warning
+RECURSIVE ApplyRaw(_, _, _)
+ApplyRaw(ws, i, st) ==
+   IF i > Len(ws) THEN st
+   ELSE LET w == ws[i] IN
+        IF w.st # "OK" THEN ApplyRaw(ws, i + 1, st)
+        ELSE IF w.op = "put" THEN LET r == PutRec(st.nd, st.rt, st.nid, st.rt, w.k, w.v) IN ApplyRaw(ws, i + 1, [nd |-> r[1], rt |-> r[2], nid |-> r[3]])
+        ELSE LET r == RemoveRec(st.nd, st.rt, st.rt, w.k) IN ApplyRaw(ws, i + 1, [nd |-> r[1], rt |-> r[2], nid |-> st.nid])
+RECURSIVE AdvR(_, _, _, _, _, _, _, _)
+\* k more entries wanted (k = -1: until the call that does not return OK); returns [r (last call's result), tl]
+AdvR(nd, rt, r, tl, k, C, ea, fuel) ==
+   IF r.st # "OK" \/ fuel = 0 THEN [r |-> r, tl |-> tl]
+   ELSE LET tl2 == Append(tl, <<FullKeyR(r.stack), r.out[1]>>) IN
+        IF k = 1 THEN [r |-> r, tl |-> tl2] ELSE AdvR(nd, rt, NextR(nd, rt, r.stack, r.cbs, C, ea, 50), tl2, IF k < 0 THEN k ELSE k - 1, C, ea, fuel - 1)
+ModelMod(e) ==
+   LET C == CtxArgs(e.l, e.le, e.r, e.re, e.rtl)
+       p1 == AdvR(node, root, OpenR(node, root, C, e.ea), <<>>, Len(e.steps1), C, e.ea, 500)
+       raw == ApplyRaw(e.mids, 1, [nd |-> node, rt |-> root, nid |-> nextId])
+       p2 == AdvR(raw.nd, raw.rt, NextR(raw.nd, raw.rt, p1.r.stack, p1.r.cbs, C, e.ea, 50), <<>>, -1, C, e.ea, 500) IN
+   [tl1 |-> p1.tl, tl2 |-> p2.tl, end |-> IF p2.r.st = "END" THEN "OK_SCAN_END" ELSE IF p2.r.st = "WARN" THEN "WARN_CONCURRENT_OPERATIONS" ELSE p2.r.st]
 TIscanMod ==
    /\ E.op = "iscanmod"
    /\ LET asc == AbsRange(E.l, E.le, E.r, E.re)
@@ -219,6 +240,8 @@ TIscanMod ==
                /\ IF E.ea THEN IsPrefix(f2, fr) /\ (E.end = "OK_SCAN_END" => f2 = fr) /\ E.end \in {"OK_SCAN_END", "WARN_CONCURRENT_OPERATIONS"}
                   ELSE f2 = fr /\ E.end = "OK_SCAN_END",
             [exp |-> KeysOf(rest), got |-> KeysOf(got2), rtl |-> E.rtl, ea |-> E.ea, under |-> under])
+      /\ J("S", "iscanmod-model", (nw >= 1 /\ E.st1 = "OK") => LET m == ModelMod(E) IN m.tl1 = got1 /\ m.tl2 = got2 /\ m.end = E.end,
+            [model |-> IF nw >= 1 /\ E.st1 = "OK" THEN [k1 |-> KeysOf(ModelMod(E).tl1), k2 |-> KeysOf(ModelMod(E).tl2), end |-> ModelMod(E).end] ELSE [k1 |-> <<>>, k2 |-> <<>>, end |-> "-"]])
       /\ abs' = fin.abs
       /\ Structure(fin.nd, fin.rt, fin.nid)
    /\ lastRead' = [lastRead EXCEPT !.valid = FALSE] /\ UNCHANGED <<lastMem, sizes, vsz>>
